@@ -108,7 +108,7 @@ def make_case(seed, index, tier):
             'odd': rng.random() < 0.25,
             # a clock that absorbs every delay: subscriptions, puts and closes of "different
             # times" all happen at one and the same date, in successive batches of the loop
-            'start': rng.choice([1.7e18, 2.0 ** 70]) if rng.random() < 0.06 else 0,
+            'start': rng.choice([1.7e18, 2.0 ** 70, -1.5, -1, -0.5]) if rng.random() < 0.1 else 0,
             'scenario': {'producers': producers, 'consumers': consumers}}
 
 
